@@ -505,6 +505,10 @@ pub fn c14_case(ms: &[Member], l: &mut Local) {
         l.violation("compound-yields-more-than-members", show, || format!("{:?}", extra));
         return;
     }
+    // "one packet per member, in order" however the iteration is driven: next / nth / take-count histories
+    if buf.len() <= 512 && lv.len() <= 6 {
+        super::common::all_iterator_histories(l, &buf, 3);
+    }
     l.hit("parsed back to its members");
 }
 
@@ -534,6 +538,21 @@ pub fn c14(ctx: &mut Ctx) {
             Err(pi) => l.subject_panic("compound", &pi, || format!("{:?}", ms)),
         }
     });
+    // many members of mixed sizes (5..100), the last optionally padded, a third-party "Some(0)" member inside a nested
+    // compound in a non-last position
+    {
+        let sp = targets::many_member_space();
+        let get = &sp.get;
+        ctx.bound("many members", "lists of {5,7,8,9,15..18,31..34,63,64,65,100} members of mixed sizes in two size patterns; last member padded or not; a nested [third-party Some(0) member, padded BYE] in the middle");
+        ctx.run_space(&sp.name, sp.len, |idx, l| {
+            if let Target::Compound(ms) = get(idx) {
+                match guard::catch(|| c14_case(&ms, l)) {
+                    Ok(()) => {}
+                    Err(pi) => l.subject_panic("compound", &pi, || format!("{} members", ms.len())),
+                }
+            }
+        });
+    }
     // members at the size limits: the largest expressible packet (length field 0xFFFF, 262 144 bytes), one word
     // below it, and the two sizes around 65 536 bytes (where a 16-bit byte count wraps), mixed with small members
     let big = |pt: u8, total: usize, fill: u8| Pkt::Unknown { pt, count: 1, data: (0..total - 4).map(|i| fill.wrapping_add((i / 4) as u8)).collect(), pad: 0 };
